@@ -8,6 +8,8 @@ import PygModel.Ops
 import PygProofs.Lemmas.OpsLemmas
 import PygProofs.Lemmas.OpsFLemmas
 import PygProofs.Lemmas.OpsXLemmas
+import PygProofs.Lemmas.OpsFXLemmas
+import PygProofs.Lemmas.OpsFoldLemmas
 
 namespace Pyg.Props.C08
 open Pyg Pyg.Align Pyg.Ops
@@ -182,6 +184,106 @@ theorem reduce_value (op : Op) (hop : op = .add ∨ op = .mul) (how : How) (a b 
   rw [reduce_left op hop]
   simp only [List.append_nil, List.foldl_cons, List.foldl_nil, e1, e2]
 
+/-- **left to right for ANY number of operands, by value** (induction over the list, not the model's own fold): `add_` /
+`mul_` of the Series `x :: xs` (no fill method, any index policy) is the Series on the joint index of ALL operands
+(`joinIndex` of the list: the intersection / union of all indices, the first, the last) whose value at `t` is the LEFT fold
+`((x[t] op x₁[t]) op x₂[t]) …` of the operands' own values at `t` (`valueAtR`: NaN where an operand has no row).
+`reduce_value` is the case of three operands, stated through the intermediate Series. -/
+theorem reduce_value_n (op : Op) (hop : op = .add ∨ op = .mul) (how : How) (x y : RSeries) (xs : List RSeries) :
+    ∃ jx, joinIndex how ((x :: y :: xs).map (·.idx)) = some jx ∧
+      opList op how Option.none ((x :: y :: xs).map .ts) [] =
+        some (.ts { idx := jx, vals := jx.map fun t => (y :: xs).foldl (fun v s => op.appO v (valueAtR s t)) (valueAtR x t) }) := by
+  obtain ⟨r, h1, h2, h3, h4⟩ := foldl_binop op how x (y :: xs)
+  refine ⟨r.idx, ?_, ?_⟩
+  · rw [h2]; exact joinIndex_fold how x.idx ((y :: xs).map (·.idx))
+  · simp only [List.map_cons, reduce_left op hop, List.append_nil] at h1 ⊢
+    rw [h1]
+    have hv := h3 (by simp)
+    cases r with
+    | mk ri rv =>
+      congr 3
+      exact hv.trans (List.map_congr_left fun t _ => h4 t)
+
+/-- … and for `sub_` / `div_`, whose list arguments are first reduced with `add_` / `mul_`: the value at `t` is
+`(fold⁺ of a's) − (fold⁺ of b's)` resp. `(fold× of a's) / (fold× of b's)`, at every label -/
+theorem reduce_value_sub_div (op : Op) (hop : op = .sub ∨ op = .div) (how : How) (x y : RSeries) (xs ys : List RSeries) :
+    ∃ r, opList op how Option.none ((x :: xs).map .ts) ((y :: ys).map .ts) = some (.ts r) ∧
+      ∀ t, valueAtR r t =
+        op.appO (xs.foldl (fun v s => (if op = .sub then Op.add else Op.mul).appO v (valueAtR s t)) (valueAtR x t))
+                (ys.foldl (fun v s => (if op = .sub then Op.add else Op.mul).appO v (valueAtR s t)) (valueAtR y t)) := by
+  rcases hop with rfl | rfl
+  · obtain ⟨ra, a1, _, _, a4⟩ := foldl_binop .add how x xs
+    obtain ⟨rb, b1, _, _, b4⟩ := foldl_binop .add how y ys
+    obtain ⟨r, c1, _, _, c4⟩ := binop_step .sub how ra rb
+    refine ⟨r, ?_, ?_⟩
+    · simp only [List.map_cons, reduce_sub, a1, b1, c1]
+    · intro t; rw [c4 t, a4 t, b4 t]; rfl
+  · obtain ⟨ra, a1, _, _, a4⟩ := foldl_binop .mul how x xs
+    obtain ⟨rb, b1, _, _, b4⟩ := foldl_binop .mul how y ys
+    obtain ⟨r, c1, _, _, c4⟩ := binop_step .div how ra rb
+    refine ⟨r, ?_, ?_⟩
+    · simp only [List.map_cons, reduce_div, a1, b1, c1]
+    · intro t; rw [c4 t, a4 t, b4 t]; rfl
+
+/-- one operator step read at EVERY label: inside the joint index the pointwise value, outside it NaN - which is what
+`a[t] op b[t]` gives there as well, because one of the operands has no row -/
+theorem binop_value_at (op : Op) (how : How) (a b : RSeries) :
+    ∃ r, binop op how Option.none (.ts a) (.ts b) = .ts r ∧ joinIndex how [a.idx, b.idx] = some r.idx ∧
+      ∀ t, valueAtR r t = op.appO (valueAtR a t) (valueAtR b t) := by
+  obtain ⟨r, h1, h2, _, h4⟩ := binop_step op how a b
+  exact ⟨r, h1, by rw [h2, joinIndex_pair], h4⟩
+
+/-! ### division by zero: never ±inf, against an explicit float division WITH infinities
+`XVal` (Lemmas/OpsFoldLemmas.lean) has `+inf / -inf`; `XVal.div` is numpy's float division (`1/0 = inf`, `-1/0 = -inf`,
+`0/0 = nan`), `XVal.divMasked` the cell of `_div_` for a timeseries denominator (`denom[denom == 0] = nan; a / denom`),
+`XVal.divScalar` the one for a number (`a * nan if b == 0 else a / b`).  Finite arithmetic is exact (no overflow). -/
+
+/-- without the masking, division by zero DOES produce infinities -/
+theorem div_unmasked_inf : XVal.div (.fin 1) (.fin 0) = .pinf ∧ XVal.div (.fin (-1)) (.fin 0) = .ninf ∧ XVal.div (.fin 0) (.fin 0) = .nan := by
+  refine ⟨?_, ?_, ?_⟩ <;> simp [XVal.div] <;> decide
+
+/-- **never ±inf**: for operands that are finite or NaN, the masked division of `_div_` (both branches) is finite or NaN … -/
+theorem div_never_inf (x y : Option Rat) :
+    (XVal.divMasked (.ofO x) (.ofO y)).isInf = false ∧ (XVal.divScalar (.ofO x) (.ofO y)).isInf = false := by
+  cases x with
+  | none => cases y <;> simp [XVal.ofO, XVal.divMasked, XVal.divScalar, XVal.maskZero, XVal.div, XVal.mulNan, XVal.isInf] <;> split <;> rfl
+  | some x =>
+    cases y with
+    | none => simp [XVal.ofO, XVal.divMasked, XVal.divScalar, XVal.maskZero, XVal.div, XVal.isInf]
+    | some y =>
+      by_cases hy : y = 0 <;>
+        simp [XVal.ofO, XVal.divMasked, XVal.divScalar, XVal.maskZero, XVal.div, XVal.mulNan, XVal.isInf, hy]
+
+/-- … and it IS the model's division: `Op.appO .div` (NaN where the denominator is 0 or either side is NaN, else the exact
+quotient) is the masked float division, so `div_zero_none` is a statement about `_div_`'s masking, not about a value type
+that happens to lack infinities -/
+theorem div_masked_eq (x y : Option Rat) :
+    XVal.divMasked (.ofO x) (.ofO y) = .ofO (Op.appO .div x y) ∧ XVal.divScalar (.ofO x) (.ofO y) = .ofO (Op.appO .div x y) := by
+  cases x with
+  | none => cases y <;> simp [XVal.ofO, XVal.divMasked, XVal.divScalar, XVal.maskZero, XVal.div, XVal.mulNan, Op.appO] <;> split <;> rfl
+  | some x =>
+    cases y with
+    | none => simp [XVal.ofO, XVal.divMasked, XVal.divScalar, XVal.maskZero, XVal.div, Op.appO]
+    | some y =>
+      by_cases hy : y = 0 <;>
+        simp [XVal.ofO, XVal.divMasked, XVal.divScalar, XVal.maskZero, XVal.div, XVal.mulNan, Op.appO, Op.app, hy]
+
+/-- the masking is necessary and sufficient: the unmasked quotient is infinite exactly for a non-zero finite numerator over
+a zero denominator, and there the masked one is NaN -/
+theorem div_mask_removes_inf (x y : Rat) :
+    (XVal.div (.fin x) (.fin y)).isInf = true ↔ (y = 0 ∧ x ≠ 0) := by
+  simp only [XVal.div]
+  by_cases hy : y = 0
+  · subst hy
+    simp only [if_true, true_and]
+    by_cases h1 : 0 < x
+    · simp [h1, XVal.isInf]; intro e; subst e; exact absurd h1 (by decide)
+    · by_cases h2 : x < 0
+      · simp [h1, h2, XVal.isInf]; intro e; subst e; exact absurd h2 (by decide)
+      · have : x = 0 := Rat.le_antisymm (Rat.not_lt.mp h1) (Rat.not_lt.mp h2)
+        simp [h1, h2, XVal.isInf, this]
+  · simp [hy, XVal.isInf]
+
 /-! ### NaN-skipping aggregates -/
 
 /-- the aggregates live on the joint index (the union under the default `oj`) -/
@@ -305,7 +407,7 @@ theorem binopF_value (op : Op) (how : How) (m : Option Dir) (ch : ColHow) (a b :
   have h1 : indexesOfF [FOperand.df a, FOperand.df b] = [a.idx, b.idx] := rfl
   have h2 : multiNames [FOperand.df (reindexF a ix m), FOperand.df (reindexF b ix m)] = [a.names, b.names] := by
     rw [multiNames_frames _ _ (by rw [reindexF_ncols]; exact ha) (by rw [reindexF_ncols]; exact hb), reindexF_names, reindexF_names]
-  simp only [binopF, h1, hix, alignF, kernelF, h2, resultCols_two]
+  simp only [binopF, h1, hix, alignF, kernelF, kernelFG, h2, resultCols_two]
   cases hc : frameCols ch a b with
   | nil => simp
   | cons c cs =>
@@ -440,7 +542,7 @@ theorem binopF_frame_series (op : Op) (how : How) (m : Option Dir) (ch : ColHow)
   have h1 : indexesOfF [FOperand.df a, FOperand.ts s] = [a.idx, s.idx] := rfl
   have h2 : multiNames [FOperand.df (reindexF a ix m), FOperand.ts (reindexR s ix m)] = [a.names] := by
     simp [multiNames, reindexF_ncols, ha, reindexF_names]
-  simp only [binopF, h1, hix, alignF, kernelF, h2, resultCols_one]
+  simp only [binopF, h1, hix, alignF, kernelF, kernelFG, h2, resultCols_one]
   cases hc : a.names with
   | nil => exact absurd hc (names_ne_nil a ha)
   | cons c cs =>
@@ -459,7 +561,7 @@ theorem binopF_series_frame (op : Op) (how : How) (m : Option Dir) (ch : ColHow)
   have h1 : indexesOfF [FOperand.ts s, FOperand.df a] = [s.idx, a.idx] := rfl
   have h2 : multiNames [FOperand.ts (reindexR s ix m), FOperand.df (reindexF a ix m)] = [a.names] := by
     simp [multiNames, reindexF_ncols, ha, reindexF_names]
-  simp only [binopF, h1, hix, alignF, kernelF, h2, resultCols_one]
+  simp only [binopF, h1, hix, alignF, kernelF, kernelFG, h2, resultCols_one]
   cases hc : a.names with
   | nil => exact absurd hc (names_ne_nil a ha)
   | cons c cs =>
@@ -476,7 +578,7 @@ theorem binopF_frame_scalar (op : Op) (how : How) (m : Option Dir) (ch : ColHow)
   have hix : joinIndex how [a.idx] = some a.idx := by cases how <;> rfl
   have h2 : multiNames [FOperand.df (reindexF a a.idx m), FOperand.num q] = [a.names] := by
     simp [multiNames, reindexF_ncols, ha, reindexF_names]
-  simp only [binopF, h1, hix, alignF, kernelF, h2, resultCols_one]
+  simp only [binopF, h1, hix, alignF, kernelF, kernelFG, h2, resultCols_one]
   cases hc : a.names with
   | nil => exact absurd hc (names_ne_nil a ha)
   | cons c cs =>
@@ -493,7 +595,7 @@ theorem binopF_scalar_frame (op : Op) (how : How) (m : Option Dir) (ch : ColHow)
   have hix : joinIndex how [a.idx] = some a.idx := by cases how <;> rfl
   have h2 : multiNames [FOperand.num q, FOperand.df (reindexF a a.idx m)] = [a.names] := by
     simp [multiNames, reindexF_ncols, ha, reindexF_names]
-  simp only [binopF, h1, hix, alignF, kernelF, h2, resultCols_one]
+  simp only [binopF, h1, hix, alignF, kernelF, kernelFG, h2, resultCols_one]
   cases hc : a.names with
   | nil => exact absurd hc (names_ne_nil a ha)
   | cons c cs =>
@@ -512,7 +614,7 @@ theorem one_col_left (op : Op) (how : How) (m : Option Dir) (ch : ColHow) (idx :
   obtain ⟨ix, hix⟩ := joinIndex_two how idx b.idx
   have h1 : indexesOfF [FOperand.df { idx := idx, cols := [(n, col)] }, FOperand.df b] = [idx, b.idx] := rfl
   have h1' : indexesOfF [FOperand.ts { idx := idx, vals := col }, FOperand.df b] = [idx, b.idx] := rfl
-  simp only [binopF, h1, h1', hix, alignF, kernelF]
+  simp only [binopF, h1, h1', hix, alignF, kernelF, kernelFG]
   have h2 : multiNames [FOperand.df (reindexF { idx := idx, cols := [(n, col)] } ix m), FOperand.df (reindexF b ix m)] = [b.names] := by
     simp [multiNames, reindexF_ncols, hb, reindexF_names]
   have h2' : multiNames [FOperand.ts (reindexR { idx := idx, vals := col } ix m), FOperand.df (reindexF b ix m)] = [b.names] := by
@@ -529,7 +631,7 @@ theorem one_col_right (op : Op) (how : How) (m : Option Dir) (ch : ColHow) (idx 
   obtain ⟨ix, hix⟩ := joinIndex_two how a.idx idx
   have h1 : indexesOfF [FOperand.df a, FOperand.df { idx := idx, cols := [(n, col)] }] = [a.idx, idx] := rfl
   have h1' : indexesOfF [FOperand.df a, FOperand.ts { idx := idx, vals := col }] = [a.idx, idx] := rfl
-  simp only [binopF, h1, h1', hix, alignF, kernelF]
+  simp only [binopF, h1, h1', hix, alignF, kernelF, kernelFG]
   have h2 : multiNames [FOperand.df (reindexF a ix m), FOperand.df (reindexF { idx := idx, cols := [(n, col)] } ix m)] = [a.names] := by
     simp [multiNames, reindexF_ncols, ha, reindexF_names]
   have h2' : multiNames [FOperand.df (reindexF a ix m), FOperand.ts (reindexR { idx := idx, vals := col } ix m)] = [a.names] := by
@@ -550,7 +652,7 @@ theorem one_col_series (op : Op) (how : How) (m : Option Dir) (ch : ColHow) (idx
   have h1 : indexesOfF [FOperand.df { idx := idx, cols := [(n, col)] }, FOperand.ts s] = [idx, s.idx] := rfl
   have h2 : multiNames [FOperand.df (reindexF { idx := idx, cols := [(n, col)] } ix m), FOperand.ts (reindexR s ix m)] = [] := by
     simp [multiNames, reindexF]
-  simp only [binopF, h1, hix, alignF, kernelF, h2, resultCols, colArg_one _ _ _ _ _ _ _ h]
+  simp only [binopF, h1, hix, alignF, kernelF, kernelFG, h2, resultCols, colArg_one _ _ _ _ _ _ _ h]
   simp [colArg, kernel, isDf, resultName, nameOf, reindexF, wrap1, reindexR_idx]
 
 theorem one_col_scalar (op : Op) (how : How) (m : Option Dir) (ch : ColHow) (idx : List Int) (n : String) (col : RCol) (q : Option Rat)
@@ -561,7 +663,7 @@ theorem one_col_scalar (op : Op) (how : How) (m : Option Dir) (ch : ColHow) (idx
   have hix : joinIndex how [idx] = some idx := by cases how <;> rfl
   have h2 : multiNames [FOperand.df (reindexF { idx := idx, cols := [(n, col)] } idx m), FOperand.num q] = [] := by
     simp [multiNames, reindexF]
-  simp only [binopF, h1, hix, alignF, kernelF, h2, resultCols, colArg_one _ _ _ _ _ _ _ h]
+  simp only [binopF, h1, hix, alignF, kernelF, kernelFG, h2, resultCols, colArg_one _ _ _ _ _ _ _ h]
   simp [colArg, kernel, isDf, resultName, nameOf, reindexF, wrap1, reindexR_idx, binop, alignAll, indexesOf, hix]
 
 theorem one_col_one_col (op : Op) (how : How) (m : Option Dir) (ch : ColHow) (idx idx' : List Int) (n n' : String) (col col' : RCol)
@@ -573,7 +675,7 @@ theorem one_col_one_col (op : Op) (how : How) (m : Option Dir) (ch : ColHow) (id
   have h1 : indexesOfF [FOperand.df { idx := idx, cols := [(n, col)] }, FOperand.df { idx := idx', cols := [(n', col')] }] = [idx, idx'] := rfl
   have h2 : multiNames [FOperand.df (reindexF { idx := idx, cols := [(n, col)] } ix m), FOperand.df (reindexF { idx := idx', cols := [(n', col')] } ix m)] = [] := by
     simp [multiNames, reindexF]
-  simp only [binopF, h1, hix, alignF, kernelF, h2, resultCols, colArg_one _ _ _ _ _ _ _ h, colArg_one _ _ _ _ _ _ _ h']
+  simp only [binopF, h1, hix, alignF, kernelF, kernelFG, h2, resultCols, colArg_one _ _ _ _ _ _ _ h, colArg_one _ _ _ _ _ _ _ h']
   simp [kernel, isDf, resultName, nameOf, reindexF, wrap1, reindexR_idx]
   split <;> simp_all
 
@@ -594,13 +696,13 @@ theorem div_by_zero_scalar_frame (how : How) (m : Option Dir) (ch : ColHow) (a :
 theorem binopF_refines (op : Op) (how : How) (m : Option Dir) (ch : ColHow) (a b : Operand) :
     binopF op how m ch (.ofOperand a) (.ofOperand b) = .ofOperand (binop op how m a b) := by
   cases a <;> cases b <;> cases how <;>
-    simp [binopF, binop, FOperand.ofOperand, indexesOfF, indexesOf, joinIndex, alignAll, alignF, kernelF, multiNames, resultCols,
+    simp [binopF, binop, FOperand.ofOperand, indexesOfF, indexesOf, joinIndex, alignAll, alignF, kernelF, kernelFG, multiNames, resultCols,
       colArg, isDf, kernel]
 
 /-! ### commutativity on frames -/
 
 theorem binopF_comm_aux (op : Op) (hop : ∀ x y, op.appO x y = op.appO y x) (how : How) (hh : how = .inner ∨ how = .outer)
-    (m : Option Dir) (ch : ColHow) (a b : RFrame)
+    (m : Option Dir) (ch : ColHow) (hch : ch = .ij ∨ ch = .oj) (a b : RFrame)
     (ha : a.cols.length > 1) (hb : b.cols.length > 1) (sa : SortedL a.idx) (sb : SortedL b.idx) :
     binopF op how m ch (.df a) (.df b) = binopF op how m ch (.df b) (.df a) := by
   obtain ⟨ix, h1, h2⟩ := binopF_value op how m ch a b ha hb
@@ -611,7 +713,7 @@ theorem binopF_comm_aux (op : Op) (hop : ∀ x y, op.appO x y = op.appO y x) (ho
     · exact joinIndex_comm_outer _ _ sa sb
   rw [hj, h1'] at h1
   cases h1
-  rw [h2, h2', frameCols_comm ch b a]
+  rw [h2, h2', frameCols_comm ch hch b a]
   split
   · rfl
   · congr 2
@@ -622,17 +724,18 @@ theorem binopF_comm_aux (op : Op) (hop : ∀ x y, op.appO x y = op.appO y x) (ho
     intro t _
     exact hop _ _
 
-/-- `add_` and `mul_` are commutative on frames (sorted indices; index policies inner / outer; both column policies;
-any fill method): same header, same index, same cells -/
-theorem add_comm_frames (how : How) (hh : how = .inner ∨ how = .outer) (m : Option Dir) (ch : ColHow) (a b : RFrame)
+/-- `add_` and `mul_` are commutative on frames (sorted indices; index policies inner / outer; both column policies
+`'ij'` / `'oj'` of the quantifier - `'lj'` / `'rj'` take the header of the first / last frame and cannot commute, see
+`comm_fails_lj`; any fill method): same header, same index, same cells -/
+theorem add_comm_frames (how : How) (hh : how = .inner ∨ how = .outer) (m : Option Dir) (ch : ColHow) (hch : ch = .ij ∨ ch = .oj) (a b : RFrame)
     (ha : a.cols.length > 1) (hb : b.cols.length > 1) (sa : SortedL a.idx) (sb : SortedL b.idx) :
     binopF .add how m ch (.df a) (.df b) = binopF .add how m ch (.df b) (.df a) :=
-  binopF_comm_aux .add appO_comm_add how hh m ch a b ha hb sa sb
+  binopF_comm_aux .add appO_comm_add how hh m ch hch a b ha hb sa sb
 
-theorem mul_comm_frames (how : How) (hh : how = .inner ∨ how = .outer) (m : Option Dir) (ch : ColHow) (a b : RFrame)
+theorem mul_comm_frames (how : How) (hh : how = .inner ∨ how = .outer) (m : Option Dir) (ch : ColHow) (hch : ch = .ij ∨ ch = .oj) (a b : RFrame)
     (ha : a.cols.length > 1) (hb : b.cols.length > 1) (sa : SortedL a.idx) (sb : SortedL b.idx) :
     binopF .mul how m ch (.df a) (.df b) = binopF .mul how m ch (.df b) (.df a) :=
-  binopF_comm_aux .mul appO_comm_mul how hh m ch a b ha hb sa sb
+  binopF_comm_aux .mul appO_comm_mul how hh m ch hch a b ha hb sa sb
 
 /-- ... and between a frame and a Series (the Series is broadcast to every column on either side) -/
 theorem add_comm_frame_series (how : How) (hh : how = .inner ∨ how = .outer) (m : Option Dir) (ch : ColHow) (a : RFrame) (s : RSeries)
@@ -974,6 +1077,426 @@ theorem ge_not_lt (x y : Rat) : Cmp.app .ge x y = !Cmp.app .lt x y := by
   · simp [Cmp.app, h, Rat.not_lt.mpr h]
   · simp [Cmp.app, h, Rat.not_le.mp h]
 
+/-! ## every presync kernel on frames (`binopFG`, PygModel/OpsF.lean): `pow_`, the comparisons, and the column policies `'lj'` / `'rj'`
+`binopFG (kernelG f) d` is the presync-decorated kernel with the pointwise function `f` and `presync(default = d)`;
+`binopF op = binopFG (kernelG op.appO) (some op.neutral)` (`binopF_eq_binopFG`). -/
+
+/-- **value, index and columns at once, for any pointwise kernel**: two frames with several columns each give the frame on
+the joint index with header `frameCols` whose cell `(t, c)` is `f a[t, c] b[t, c]`, a column that one side lacks counting
+as the kernel's `default` `d`; without any result column the code returns the empty `pd.Series({})` -/
+theorem binopFG_value (f : PF) (d : Option Rat) (how : How) (m : Option Dir) (ch : ColHow) (a b : RFrame)
+    (ha : a.cols.length > 1) (hb : b.cols.length > 1) :
+    ∃ ix, joinIndex how [a.idx, b.idx] = some ix ∧
+      binopFG (kernelG f) d how m ch (.df a) (.df b) =
+        if frameCols ch a b = [] then .ts { idx := [], vals := [] }
+        else .df { idx := ix, cols := (frameCols ch a b).map fun c =>
+                     (c, ix.map fun t => f (cellD d a m c t) (cellD d b m c t)) } := by
+  obtain ⟨ix, hix⟩ := joinIndex_two how a.idx b.idx
+  refine ⟨ix, hix, ?_⟩
+  have h1 : indexesOfF [FOperand.df a, FOperand.df b] = [a.idx, b.idx] := rfl
+  have h2 : multiNames [FOperand.df (reindexF a ix m), FOperand.df (reindexF b ix m)] = [a.names, b.names] := by
+    rw [multiNames_frames _ _ (by rw [reindexF_ncols]; exact ha) (by rw [reindexF_ncols]; exact hb), reindexF_names, reindexF_names]
+  simp only [binopFG, h1, hix, alignF, kernelFG, h2, resultCols_two]
+  cases hc : frameCols ch a b with
+  | nil => simp
+  | cons c cs =>
+    simp only [List.cons_ne_nil, if_false]
+    congr 2
+    apply List.map_congr_left
+    intro c' _
+    rw [col_valueG f _ c' a b ix m ha hb]
+
+/-- the result is a frame with header `frameCols` whenever there is a result column at all -/
+theorem binopFG_columns (f : PF) (d : Option Rat) (how : How) (m : Option Dir) (ch : ColHow) (a b : RFrame)
+    (ha : a.cols.length > 1) (hb : b.cols.length > 1) :
+    (frameCols ch a b = [] ∧ binopFG (kernelG f) d how m ch (.df a) (.df b) = .ts { idx := [], vals := [] }) ∨
+    (frameCols ch a b ≠ [] ∧ ∃ r, binopFG (kernelG f) d how m ch (.df a) (.df b) = .df r ∧ r.names = frameCols ch a b ∧
+      joinIndex how [a.idx, b.idx] = some r.idx) := by
+  obtain ⟨ix, hix, h⟩ := binopFG_value f d how m ch a b ha hb
+  by_cases hc : frameCols ch a b = []
+  · exact .inl ⟨hc, by rw [h, if_pos hc]⟩
+  · refine .inr ⟨hc, _, by rw [h, if_neg hc], ?_, hix⟩
+    simp [RFrame.names, List.map_map, Function.comp_def]
+
+/-- **cell by cell**: reading the result by label, `result[t, c] = f a[t, c] b[t, c]` for every result column `c` and every
+label `t` of the joint index -/
+theorem binopFG_cell (f : PF) (d : Option Rat) (how : How) (m : Option Dir) (ch : ColHow) (a b r : RFrame)
+    (ha : a.cols.length > 1) (hb : b.cols.length > 1) (h : binopFG (kernelG f) d how m ch (.df a) (.df b) = .df r)
+    (c : String) (t : Int) (hc : c ∈ r.names) (ht : t ∈ r.idx) :
+    cellD Option.none r Option.none c t = f (cellD d a m c t) (cellD d b m c t) := by
+  obtain ⟨ix, hix, h'⟩ := binopFG_value f d how m ch a b ha hb
+  rw [h'] at h
+  split at h
+  · cases h
+  · cases h
+    have hc' : c ∈ frameCols ch a b := by simpa [RFrame.names, List.map_map, Function.comp_def] using hc
+    exact cell_of_built Option.none ix (frameCols ch a b) (fun c t => f (cellD d a m c t) (cellD d b m c t)) c t hc' ht
+
+/-- a frame against a Series / a scalar, on either side: broadcast to every column of the frame (header = the frame's own,
+in its order; any column policy) -/
+theorem binopFG_frame_series (f : PF) (d : Option Rat) (how : How) (m : Option Dir) (ch : ColHow) (a : RFrame) (s : RSeries)
+    (ha : a.cols.length > 1) :
+    ∃ ix, joinIndex how [a.idx, s.idx] = some ix ∧
+      binopFG (kernelG f) d how m ch (.df a) (.ts s) =
+        .df { idx := ix, cols := a.names.map fun c => (c, ix.map fun t => f (cellD d a m c t) (lookR s m t)) } := by
+  obtain ⟨ix, hix⟩ := joinIndex_two how a.idx s.idx
+  refine ⟨ix, hix, ?_⟩
+  have h1 : indexesOfF [FOperand.df a, FOperand.ts s] = [a.idx, s.idx] := rfl
+  have h2 : multiNames [FOperand.df (reindexF a ix m), FOperand.ts (reindexR s ix m)] = [a.names] := by
+    simp [multiNames, reindexF_ncols, ha, reindexF_names]
+  simp only [binopFG, h1, hix, alignF, kernelFG, h2, resultCols_one]
+  cases hc : a.names with
+  | nil => exact absurd hc (names_ne_nil a ha)
+  | cons c cs =>
+    simp only
+    congr 2
+    apply List.map_congr_left
+    intro c' _
+    rw [col_valueG_ts f _ c' a s ix m ha]
+
+theorem binopFG_series_frame (f : PF) (d : Option Rat) (how : How) (m : Option Dir) (ch : ColHow) (a : RFrame) (s : RSeries)
+    (ha : a.cols.length > 1) :
+    ∃ ix, joinIndex how [s.idx, a.idx] = some ix ∧
+      binopFG (kernelG f) d how m ch (.ts s) (.df a) =
+        .df { idx := ix, cols := a.names.map fun c => (c, ix.map fun t => f (lookR s m t) (cellD d a m c t)) } := by
+  obtain ⟨ix, hix⟩ := joinIndex_two how s.idx a.idx
+  refine ⟨ix, hix, ?_⟩
+  have h1 : indexesOfF [FOperand.ts s, FOperand.df a] = [s.idx, a.idx] := rfl
+  have h2 : multiNames [FOperand.ts (reindexR s ix m), FOperand.df (reindexF a ix m)] = [a.names] := by
+    simp [multiNames, reindexF_ncols, ha, reindexF_names]
+  simp only [binopFG, h1, hix, alignF, kernelFG, h2, resultCols_one]
+  cases hc : a.names with
+  | nil => exact absurd hc (names_ne_nil a ha)
+  | cons c cs =>
+    simp only
+    congr 2
+    apply List.map_congr_left
+    intro c' _
+    rw [col_valueG_ts' f _ c' a s ix m ha]
+
+theorem binopFG_frame_scalar (f : PF) (d : Option Rat) (how : How) (m : Option Dir) (ch : ColHow) (a : RFrame) (q : Option Rat)
+    (ha : a.cols.length > 1) :
+    binopFG (kernelG f) d how m ch (.df a) (.num q) =
+      .df { idx := a.idx, cols := a.names.map fun c => (c, a.idx.map fun t => f (cellD d a m c t) q) } := by
+  have h1 : indexesOfF [FOperand.df a, FOperand.num q] = [a.idx] := rfl
+  have hix : joinIndex how [a.idx] = some a.idx := by cases how <;> rfl
+  have h2 : multiNames [FOperand.df (reindexF a a.idx m), FOperand.num q] = [a.names] := by
+    simp [multiNames, reindexF_ncols, ha, reindexF_names]
+  simp only [binopFG, h1, hix, alignF, kernelFG, h2, resultCols_one]
+  cases hc : a.names with
+  | nil => exact absurd hc (names_ne_nil a ha)
+  | cons c cs =>
+    simp only
+    congr 2
+    apply List.map_congr_left
+    intro c' _
+    rw [col_valueG_num f _ c' a q a.idx m ha]
+
+theorem binopFG_scalar_frame (f : PF) (d : Option Rat) (how : How) (m : Option Dir) (ch : ColHow) (a : RFrame) (q : Option Rat)
+    (ha : a.cols.length > 1) :
+    binopFG (kernelG f) d how m ch (.num q) (.df a) =
+      .df { idx := a.idx, cols := a.names.map fun c => (c, a.idx.map fun t => f q (cellD d a m c t)) } := by
+  have h1 : indexesOfF [FOperand.num q, FOperand.df a] = [a.idx] := rfl
+  have hix : joinIndex how [a.idx] = some a.idx := by cases how <;> rfl
+  have h2 : multiNames [FOperand.num q, FOperand.df (reindexF a a.idx m)] = [a.names] := by
+    simp [multiNames, reindexF_ncols, ha, reindexF_names]
+  simp only [binopFG, h1, hix, alignF, kernelFG, h2, resultCols_one]
+  cases hc : a.names with
+  | nil => exact absurd hc (names_ne_nil a ha)
+  | cons c cs =>
+    simp only
+    congr 2
+    apply List.map_congr_left
+    intro c' _
+    rw [col_valueG_num' f _ c' a q a.idx m ha]
+
+/-- on Series and scalars the frame-aware kernel is the Series kernel `binopG` of PygModel/OpsX.lean, whatever the default
+and the column policy -/
+theorem binopFG_refines (f : PF) (d : Option Rat) (how : How) (m : Option Dir) (ch : ColHow) (a b : Operand) :
+    binopFG (kernelG f) d how m ch (.ofOperand a) (.ofOperand b) = .ofOperand (binopG f how m a b) := by
+  cases a <;> cases b <;> cases how <;>
+    simp [binopFG, binopG, FOperand.ofOperand, indexesOfF, indexesOf, joinIndex, alignAll, alignF, kernelFG, multiNames, resultCols,
+      colArg, isDf, kernelG]
+
+/-! ### the column policies `'lj'` / `'rj'`: the header of the first / of the last frame -/
+
+theorem binopF_columns_lj (a b : RFrame) (c : String) : c ∈ frameCols .lj a b ↔ c ∈ a.names := by
+  unfold frameCols
+  split
+  · exact Iff.rfl
+  · simp [colsJoin, mem_sortS]
+
+theorem binopF_columns_rj (a b : RFrame) (c : String) : c ∈ frameCols .rj a b ↔ c ∈ b.names := by
+  unfold frameCols
+  split
+  · rename_i h; rw [h]
+  · simp [colsJoin, mem_sortS]
+
+/-- whatever the column policy: a result column that the RIGHT frame lacks holds `f a[t, c] d`, one that the LEFT frame
+lacks `f d b[t, c]` (`d` = the kernel's default) -/
+theorem binopFG_missing_right (f : PF) (d : Option Rat) (how : How) (m : Option Dir) (ch : ColHow) (a b r : RFrame)
+    (ha : a.cols.length > 1) (hb : b.cols.length > 1) (h : binopFG (kernelG f) d how m ch (.df a) (.df b) = .df r)
+    (c : String) (hc : c ∈ r.names) (hcb : c ∉ b.names) (t : Int) (ht : t ∈ r.idx) :
+    cellD Option.none r Option.none c t = f (cellD d a m c t) d := by
+  rw [binopFG_cell f d how m ch a b r ha hb h c t hc ht, cellD_not_mem _ b m c t hcb]
+
+theorem binopFG_missing_left (f : PF) (d : Option Rat) (how : How) (m : Option Dir) (ch : ColHow) (a b r : RFrame)
+    (ha : a.cols.length > 1) (hb : b.cols.length > 1) (h : binopFG (kernelG f) d how m ch (.df a) (.df b) = .df r)
+    (c : String) (hc : c ∈ r.names) (hca : c ∉ a.names) (t : Int) (ht : t ∈ r.idx) :
+    cellD Option.none r Option.none c t = f d (cellD d b m c t) := by
+  rw [binopFG_cell f d how m ch a b r ha hb h c t hc ht, cellD_not_mem _ a m c t hca]
+
+/-- `columns = 'lj'`: the result has exactly the columns of the LEFT frame, and a column that only the left frame has is
+the left frame's column on the joint index (the right side acts as the neutral element), for all four operators -/
+theorem lj_neutral (op : Op) (how : How) (m : Option Dir) (a b r : RFrame)
+    (ha : a.cols.length > 1) (hb : b.cols.length > 1) (h : binopF op how m .lj (.df a) (.df b) = .df r) :
+    (∀ c, c ∈ r.names ↔ c ∈ a.names) ∧
+    ∀ c, c ∈ a.names → c ∉ b.names → ∀ t ∈ r.idx, cellD Option.none r Option.none c t = cellD Option.none a m c t := by
+  have hn : ∀ c, c ∈ r.names ↔ c ∈ a.names := by
+    intro c
+    rcases binopF_columns op how m .lj a b ha hb with ⟨_, h1⟩ | ⟨_, r', h1, h2⟩
+    · rw [h1] at h; cases h
+    · rw [h1] at h; cases h; rw [h2, binopF_columns_lj]
+  refine ⟨hn, ?_⟩
+  intro c hca hcb t ht
+  rw [binopF_cell op how m .lj a b r ha hb h c t ((hn c).mpr hca) ht, cellD_not_mem _ b m c t hcb, appO_neutral_right]
+  exact cellD_mem _ _ a m c t hca
+
+/-- `columns = 'rj'`: the result has exactly the columns of the RIGHT frame, and a column that only the right frame has
+holds `neutral op b[t, c]` (`b[t, c]` itself for `add_ / mul_`, `0 - b[t, c]`, `1 / b[t, c]`) -/
+theorem rj_neutral (op : Op) (how : How) (m : Option Dir) (a b r : RFrame)
+    (ha : a.cols.length > 1) (hb : b.cols.length > 1) (h : binopF op how m .rj (.df a) (.df b) = .df r) :
+    (∀ c, c ∈ r.names ↔ c ∈ b.names) ∧
+    ∀ c, c ∉ a.names → c ∈ b.names → ∀ t ∈ r.idx,
+      cellD Option.none r Option.none c t = op.appO (some op.neutral) (cellD Option.none b m c t) := by
+  have hn : ∀ c, c ∈ r.names ↔ c ∈ b.names := by
+    intro c
+    rcases binopF_columns op how m .rj a b ha hb with ⟨_, h1⟩ | ⟨_, r', h1, h2⟩
+    · rw [h1] at h; cases h
+    · rw [h1] at h; cases h; rw [h2, binopF_columns_rj]
+  refine ⟨hn, ?_⟩
+  intro c hca hcb t ht
+  rw [binopF_cell op how m .rj a b r ha hb h c t ((hn c).mpr hcb) ht, cellD_not_mem _ a m c t hca,
+    cellD_mem _ Option.none b m c t hcb]
+
+/-- under `'lj'` (and `'rj'`) the operators cannot commute: the header follows the first (last) operand.  Witness: frames
+with the headers `a, b` and `b, c` -/
+theorem comm_fails_lj :
+    ∃ a b : RFrame, a.cols.length > 1 ∧ b.cols.length > 1 ∧ SortedL a.idx ∧ SortedL b.idx ∧
+      binopF .add .inner Option.none .lj (.df a) (.df b) ≠ binopF .add .inner Option.none .lj (.df b) (.df a) := by
+  refine ⟨{ idx := [1], cols := [("a", [some 1]), ("b", [some 1])] }, { idx := [1], cols := [("b", [some 1]), ("c", [some 1])] },
+    by decide, by decide, by decide, by decide, ?_⟩
+  intro e
+  rcases binopF_columns .add .inner Option.none .lj _ _ (by decide : (RFrame.mk [1] [("a", [some (1 : Rat)]), ("b", [some 1])]).cols.length > 1)
+      (by decide : (RFrame.mk [1] [("b", [some (1 : Rat)]), ("c", [some 1])]).cols.length > 1) with ⟨h0, _⟩ | ⟨_, r, h1, h2⟩
+  · have : "a" ∈ frameCols .lj (RFrame.mk [1] [("a", [some (1 : Rat)]), ("b", [some 1])]) (RFrame.mk [1] [("b", [some (1 : Rat)]), ("c", [some 1])]) := by
+      rw [binopF_columns_lj]; decide
+    rw [h0] at this; cases this
+  · rcases binopF_columns .add .inner Option.none .lj _ _ (by decide : (RFrame.mk [1] [("b", [some (1 : Rat)]), ("c", [some 1])]).cols.length > 1)
+        (by decide : (RFrame.mk [1] [("a", [some (1 : Rat)]), ("b", [some 1])]).cols.length > 1) with ⟨h0, _⟩ | ⟨_, r', h1', h2'⟩
+    · have : "b" ∈ frameCols .lj (RFrame.mk [1] [("b", [some (1 : Rat)]), ("c", [some 1])]) (RFrame.mk [1] [("a", [some (1 : Rat)]), ("b", [some 1])]) := by
+        rw [binopF_columns_lj]; decide
+      rw [h0] at this; cases this
+    · rw [h1, h1'] at e
+      cases e
+      have h3 : "a" ∈ r.names := by rw [h2, binopF_columns_lj]; decide
+      rw [h2', binopF_columns_lj] at h3
+      revert h3; decide
+
+/-! ### `pow_` and the comparisons on frames (`default = nan`) -/
+
+/-- `pow_(a, b)` of two frames: cell `(t, c)` = `a[t, c] ** b[t, c]` on the joint index, header `frameCols` (common columns
+under `'ij'`, all under `'oj'`, …); a column that one frame lacks counts as NaN (`@presync` without a default) -/
+theorem powF_value (how : How) (m : Option Dir) (ch : ColHow) (a b : RFrame) (ha : a.cols.length > 1) (hb : b.cols.length > 1) :
+    ∃ ix, joinIndex how [a.idx, b.idx] = some ix ∧
+      powF how m ch (.df a) (.df b) =
+        if frameCols ch a b = [] then .ts { idx := [], vals := [] }
+        else .df { idx := ix, cols := (frameCols ch a b).map fun c =>
+                     (c, ix.map fun t => powO (cellD Option.none a m c t) (cellD Option.none b m c t)) } :=
+  binopFG_value powO Option.none how m ch a b ha hb
+
+/-- NaN is not neutral for `**`: a column only the base frame has is NaN except where the base is 1 (`1 ** nan = 1`); a
+column only the exponent frame has is NaN except where the exponent is 0 (`nan ** 0 = 1`) -/
+theorem powF_missing (how : How) (m : Option Dir) (ch : ColHow) (a b r : RFrame)
+    (ha : a.cols.length > 1) (hb : b.cols.length > 1) (h : powF how m ch (.df a) (.df b) = .df r) (c : String) (hc : c ∈ r.names)
+    (t : Int) (ht : t ∈ r.idx) :
+    (c ∉ b.names → cellD Option.none r Option.none c t = if cellD Option.none a m c t = some 1 then some 1 else Option.none) ∧
+    (c ∉ a.names → cellD Option.none r Option.none c t = if cellD Option.none b m c t = some 0 then some 1 else Option.none) := by
+  constructor
+  · intro hcb
+    rw [binopFG_missing_right powO Option.none how m ch a b r ha hb h c hc hcb t ht]
+    cases cellD Option.none a m c t with
+    | none => rfl
+    | some x => by_cases hx : x = 1 <;> simp [powO, hx]
+  · intro hca
+    rw [binopFG_missing_left powO Option.none how m ch a b r ha hb h c hc hca t ht]
+    cases cellD Option.none b m c t with
+    | none => rfl
+    | some y => by_cases hy : y = 0 <;> simp [powO, hy]
+
+theorem powF_frame_scalar (how : How) (m : Option Dir) (ch : ColHow) (a : RFrame) (q : Option Rat) (ha : a.cols.length > 1) :
+    powF how m ch (.df a) (.num q) =
+      .df { idx := a.idx, cols := a.names.map fun c => (c, a.idx.map fun t => powO (cellD Option.none a m c t) q) } :=
+  binopFG_frame_scalar powO Option.none how m ch a q ha
+
+theorem powF_refines (how : How) (m : Option Dir) (ch : ColHow) (a b : Operand) :
+    powF how m ch (.ofOperand a) (.ofOperand b) = .ofOperand (powop how m a b) :=
+  binopFG_refines powO Option.none how m ch a b
+
+/-- `gt_ / ge_ / lt_ / le_ (a, b)` of two frames: cell `(t, c)` = the bool `a[t, c] cmp b[t, c]` (as 1 / 0) on the joint index,
+header `frameCols`; NaN on either side and a column that one frame lacks (default NaN) compare False -/
+theorem cmpF_value (c : Cmp) (how : How) (m : Option Dir) (ch : ColHow) (a b : RFrame) (ha : a.cols.length > 1) (hb : b.cols.length > 1) :
+    ∃ ix, joinIndex how [a.idx, b.idx] = some ix ∧
+      cmpF c how m ch (.df a) (.df b) =
+        if frameCols ch a b = [] then .ts { idx := [], vals := [] }
+        else .df { idx := ix, cols := (frameCols ch a b).map fun n =>
+                     (n, ix.map fun t => boolCell (c.appO (cellD Option.none a m n t) (cellD Option.none b m n t))) } :=
+  binopFG_value c.cell Option.none how m ch a b ha hb
+
+/-- a column that only one of the frames has is False throughout (never NaN, never a neutral element) -/
+theorem cmpF_missing_false (c : Cmp) (how : How) (m : Option Dir) (ch : ColHow) (a b r : RFrame)
+    (ha : a.cols.length > 1) (hb : b.cols.length > 1) (h : cmpF c how m ch (.df a) (.df b) = .df r) (n : String) (hn : n ∈ r.names)
+    (hmiss : n ∉ a.names ∨ n ∉ b.names) (t : Int) (ht : t ∈ r.idx) :
+    cellD Option.none r Option.none n t = boolCell false := by
+  rcases hmiss with hm | hm
+  · rw [binopFG_missing_left c.cell Option.none how m ch a b r ha hb h n hn hm t ht, Cmp.cell, (cmp_nan_false c _).1]
+  · rw [binopFG_missing_right c.cell Option.none how m ch a b r ha hb h n hn hm t ht, Cmp.cell, (cmp_nan_false c _).2]
+
+/-- every cell of a comparison of frames is a bool -/
+theorem cmpF_bool (c : Cmp) (how : How) (m : Option Dir) (ch : ColHow) (a b r : RFrame)
+    (ha : a.cols.length > 1) (hb : b.cols.length > 1) (h : cmpF c how m ch (.df a) (.df b) = .df r) (n : String) (hn : n ∈ r.names)
+    (t : Int) (ht : t ∈ r.idx) :
+    cellD Option.none r Option.none n t = boolCell true ∨ cellD Option.none r Option.none n t = boolCell false := by
+  rw [binopFG_cell c.cell Option.none how m ch a b r ha hb h n t hn ht, Cmp.cell]
+  cases c.appO _ _ <;> simp
+
+theorem cmpF_frame_series (c : Cmp) (how : How) (m : Option Dir) (ch : ColHow) (a : RFrame) (s : RSeries) (ha : a.cols.length > 1) :
+    ∃ ix, joinIndex how [a.idx, s.idx] = some ix ∧
+      cmpF c how m ch (.df a) (.ts s) =
+        .df { idx := ix, cols := a.names.map fun n => (n, ix.map fun t => boolCell (c.appO (cellD Option.none a m n t) (lookR s m t))) } :=
+  binopFG_frame_series c.cell Option.none how m ch a s ha
+
+theorem cmpF_frame_scalar (c : Cmp) (how : How) (m : Option Dir) (ch : ColHow) (a : RFrame) (q : Option Rat) (ha : a.cols.length > 1) :
+    cmpF c how m ch (.df a) (.num q) =
+      .df { idx := a.idx, cols := a.names.map fun n => (n, a.idx.map fun t => boolCell (c.appO (cellD Option.none a m n t) q)) } :=
+  binopFG_frame_scalar c.cell Option.none how m ch a q ha
+
+/-- on Series and scalars the frame-aware comparison is `cmpop` (all theorems `cmp_*` apply), cells read as bools -/
+theorem cmpF_refines (c : Cmp) (how : How) (m : Option Dir) (ch : ColHow) (a b : Operand) :
+    cmpF c how m ch (.ofOperand a) (.ofOperand b) = (cmpop c how m a b).enc := by
+  cases a <;> cases b <;> cases how <;>
+    simp [cmpF, binopFG, cmpop, FOperand.ofOperand, indexesOfF, indexesOf, joinIndex, alignAll, alignF, kernelFG, multiNames, resultCols,
+      colArg, isDf, kernelG, cmpKernel, BOperand.enc, Cmp.cell, reindexR_idx]
+
+/-! ### `min_ / max_` with frames (`mmListF`, PygModel/OpsFX.lean): `df_sync` of ALL operands, then the left fold -/
+
+theorem mem_framesOfX (xs : List FOperand) (f : RFrame) : f ∈ framesOfX xs ↔ FOperand.df f ∈ xs := by
+  induction xs with
+  | nil => simp [framesOfX]
+  | cons x xs ih =>
+    cases x <;> simp_all [framesOfX]
+
+/-- **value, index and columns at once, any number of operands** (induction over the list): `min_` / `max_` of scalars,
+Series and frames with several columns each, at least one frame, is the frame on the joint index of all timeseries with
+the joint header of the FRAMES (`aggCols`: common columns under `'ij'`, all under `'oj'`, …, sorted) whose cell `(t, c)`
+is the LEFT fold of `np.minimum / np.maximum` (`MM.appO`: NaN propagates) over what the operands show there (`cellM`: a
+frame its cell after `_df_reindex(·, m)`, NaN without the column; a Series its value in every column; a scalar itself).
+Hypothesis `hc`: more than one joint column, or no Series operand - a frame that `df_sync` leaves with exactly ONE column
+is turned into a Series by `_align_columns` when it meets a Series (`as_series`), and the result then is a Series with
+the same values (modelled and sampled; the `#guard` below shows it). -/
+theorem mmF_value (k : MM) (how : How) (m : Option Dir) (ch : ColHow) (x : FOperand) (xs : List FOperand) (f : RFrame) (fs : List RFrame)
+    (hf : framesOfX (x :: xs) = f :: fs) (hd : ∀ g, FOperand.df g ∈ x :: xs → g.cols.length > 1)
+    (hc : (aggCols ch f fs).length ≠ 1 ∨ ∀ s, FOperand.ts s ∉ x :: xs) :
+    ∃ ix, joinIndex how (indexesOfF (x :: xs)) = some ix ∧
+      mmListF k how m ch (x :: xs) [] =
+        some (.df { idx := ix, cols := (aggCols ch f fs).map fun c =>
+                      (c, ix.map fun t => xs.foldl (fun v y => k.appO v (cellM m c t y)) (cellM m c t x)) }) := by
+  have hfm : FOperand.df f ∈ x :: xs := (mem_framesOfX _ f).mp (by rw [hf]; simp)
+  have hix : ∃ ix, joinIndex how (indexesOfF (x :: xs)) = some ix := by
+    cases hi : indexesOfF (x :: xs) with
+    | nil => exact absurd hi (indexesOfF_ne_nil _ f hfm)
+    | cons a as => exact ⟨_, joinIndex_fold how a as⟩
+  obtain ⟨ix, hix⟩ := hix
+  refine ⟨ix, hix, ?_⟩
+  have hm := multiNames_align ix m (x :: xs) hd
+  rw [hf] at hm
+  simp only [mmListF, syncF, List.append_nil, hix, hm]
+  simp only [List.map_cons]
+  have hcols : colsJoin ch f.names (fs.map (·.names)) = aggCols ch f fs := rfl
+  rw [hcols]
+  have hx := recolX_alignF (aggCols ch f fs) ix m x (fun g e => hd g (by simp [e]))
+  have hxs : (xs.map (alignF ix m)).map (recolX (aggCols ch f fs)) =
+      (xs.map fun y => (rankF y, fun c t => cellM m c t y)).map fun y => buildF ix (aggCols ch f fs) y.1 y.2 := by
+    simp only [List.map_map]
+    apply List.map_congr_left
+    intro y hy
+    exact recolX_alignF (aggCols ch f fs) ix m y (fun g e => hd g (by simp [← e, hy]))
+  simp only [reducerF]
+  rw [hx, hxs, foldl_mmKernelF k ix (aggCols ch f fs) _ _ _ (constF_cellM m x)
+    (by intro y hy; simp only [List.mem_map] at hy; obtain ⟨z, _, rfl⟩ := hy; exact constF_cellM m z)
+    (by
+      rcases hc with h | h
+      · exact .inl h
+      · refine .inr ⟨?_, ?_⟩
+        · cases x with
+          | ts s => exact absurd (List.mem_cons_self) (h s)
+          | num q => simp [rankF]
+          | df g => simp [rankF]
+        · intro y hy
+          simp only [List.mem_map] at hy
+          obtain ⟨z, hz, rfl⟩ := hy
+          cases z with
+          | ts s => exact absurd (List.mem_cons_of_mem _ hz) (h s)
+          | num q => simp [rankF]
+          | df g => simp [rankF])]
+  have hr : 2 ≤ (xs.map fun y => (rankF y, fun c t => cellM m c t y)).foldl (fun r y => max r y.1) (rankF x) := by
+    rcases List.mem_cons.mp hfm with e | hmem
+    · rw [← e]; exact rank_fold_ge _ _
+    · exact rank_fold_mem _ _ (rankF (.df f), fun c t => cellM m c t (.df f)) (List.mem_map.mpr ⟨_, hmem, rfl⟩)
+  rw [buildF_ge2 _ _ _ _ hr]
+  simp only [List.foldl_map]
+
+/-- two frames: `min_(a, b)` / `max_(a, b)` is the frame on the joint index whose cell `(t, c)` is the pointwise minimum /
+maximum of the two cells, NaN where either is NaN or a frame lacks the column (no neutral element: `df_sync` fills NaN) -/
+theorem mmF_two (k : MM) (how : How) (m : Option Dir) (ch : ColHow) (a b : RFrame) (ha : a.cols.length > 1) (hb : b.cols.length > 1) :
+    ∃ ix, joinIndex how [a.idx, b.idx] = some ix ∧
+      mmListF k how m ch [.df a] [.df b] =
+        some (.df { idx := ix, cols := (aggCols ch a [b]).map fun c =>
+                      (c, ix.map fun t => k.appO (cellD Option.none a m c t) (cellD Option.none b m c t)) }) := by
+  obtain ⟨ix, h1, h2⟩ := mmF_value k how m ch (.df a) [.df b] a [b] rfl
+    (by intro g hg; simp at hg; rcases hg with rfl | rfl <;> assumption) (.inr (by simp))
+  refine ⟨ix, h1, ?_⟩
+  have : mmListF k how m ch [.df a] [.df b] = mmListF k how m ch [.df a, .df b] [] := rfl
+  rw [this, h2]
+  rfl
+
+/-- the header: union / intersection over ALL frames (`aggF_columns_oj / _ij` apply to `aggCols`), the first frame's under
+`'lj'`, the last frame's under `'rj'`; always sorted in the model (pandas' own order in the code, compared sorted) -/
+theorem mmF_columns_lj (f : RFrame) (fs : List RFrame) (c : String) : c ∈ aggCols .lj f fs ↔ c ∈ f.names := by
+  simp [aggCols, colsJoin, mem_sortS]
+
+/-- a frame against a Series / a scalar: broadcast to every cell -/
+theorem mmF_frame_series (k : MM) (how : How) (m : Option Dir) (ch : ColHow) (a : RFrame) (s : RSeries) (ha : a.cols.length > 1)
+    (hn : a.names.Nodup) :
+    ∃ ix, joinIndex how [a.idx, s.idx] = some ix ∧
+      mmListF k how m ch [.df a] [.ts s] =
+        some (.df { idx := ix, cols := (aggCols ch a []).map fun c =>
+                      (c, ix.map fun t => k.appO (cellD Option.none a m c t) (lookR s m t)) }) := by
+  have hlen : (aggCols ch a []).length ≠ 1 := by
+    have hs : aggCols ch a [] = sortS a.names := by cases ch <;> rfl
+    rw [hs, sortS_length a.names hn]
+    simp only [RFrame.names, List.length_map]; omega
+  obtain ⟨ix, h1, h2⟩ := mmF_value k how m ch (.df a) [.ts s] a [] rfl
+    (by intro g hg; simp at hg; rcases hg with rfl; assumption) (.inl hlen)
+  refine ⟨ix, h1, ?_⟩
+  have : mmListF k how m ch [.df a] [.ts s] = mmListF k how m ch [.df a, .ts s] [] := rfl
+  rw [this, h2]
+  rfl
+
+/-- commutativity of the pointwise fold for two operands (`np.minimum(x, y) = np.minimum(y, x)`) -/
+theorem mmF_cell_comm (k : MM) (m : Option Dir) (c : String) (t : Int) (x y : FOperand) :
+    k.appO (cellM m c t x) (cellM m c t y) = k.appO (cellM m c t y) (cellM m c t x) := mm_appO_comm k _ _
+
 /-! ### non-vacuity and evaluation checks
 (`Rat` arithmetic does not reduce in the kernel, so concrete results are `#guard` evaluation tests, not theorems) -/
 
@@ -1033,5 +1556,44 @@ example : fa.cols.length > 1 ∧ fb.cols.length > 1 ∧ SortedL fa.idx ∧ Sorte
 #guard cmpop .ge .inner Option.none (.ts { idx := [0, 1, 2, 3], vals := [some 1, Option.none, some 3, some 0] }) (.num (some 1)) ==
   .ts [0, 1, 2, 3] [true, false, true, false]
 #guard powDomain (.num (some (-1))) == false && powDomain (.num (some (1 / 2))) == false && powDomain (.num (some 3))
+
+/-! round g2: column policies `lj` / `rj`, `pow_` / comparisons / `min_ / max_` with frames - the probe of the real code recorded in
+docs/notes/C08.md (fa: days 0-2, columns a, b; fb: days 1-3, columns b, c) -/
+#guard frameCols .lj fa fb == ["a", "b"] && frameCols .rj fa fb == ["b", "c"] && frameCols .rj fa fx == ["x", "y"] &&
+  frameCols .lj fba fb == ["a", "b"] && frameCols .lj fba fba == ["b", "a"]
+#guard binopF .add .inner Option.none .lj (.df fa) (.df fb) ==
+  .df { idx := [1, 2], cols := [("a", [some 2, some 3]), ("b", [Option.none, some 6])] }
+#guard binopF .sub .inner Option.none .rj (.df fa) (.df fb) ==
+  .df { idx := [1, 2], cols := [("b", [Option.none, some 6]), ("c", [some (-5), some (-5)])] }
+#guard powF .outer Option.none .oj (.df fa) (.df fb) ==
+  .df { idx := [0, 1, 2, 3], cols := [("a", [some 1, Option.none, Option.none, Option.none]), ("b", [Option.none, Option.none, some 1, Option.none]),
+                                      ("c", [Option.none, Option.none, Option.none, Option.none])] }
+#guard cmpF .gt .inner Option.none .ij (.df fa) (.df fb) == .df { idx := [1, 2], cols := [("b", [boolCell false, boolCell true])] }
+#guard cmpF .gt .inner Option.none .oj (.df fa) (.df fb) ==
+  .df { idx := [1, 2], cols := [("a", [boolCell false, boolCell false]), ("b", [boolCell false, boolCell true]), ("c", [boolCell false, boolCell false])] }
+#guard mmListF .min .inner Option.none .oj [.df fa] [.df fb] ==
+  some (.df { idx := [1, 2], cols := [("a", [Option.none, Option.none]), ("b", [Option.none, some 0]), ("c", [Option.none, Option.none])] })
+#guard mmListF .max .inner Option.none .ij [.df fa, .num (some 2), .ts { idx := [1, 2, 4], vals := [some 10, some 20, some 30] }] [] ==
+  some (.df { idx := [1, 2], cols := [("a", [some 10, some 20]), ("b", [Option.none, some 20])] })
+#guard mmListF .min .inner Option.none .ij [.df fa] [.df fx] == some (.df { idx := [1, 2], cols := [] })
+-- ONE joint column beside a Series: `as_series` turns the frame into a Series (outside the hypothesis of `mmF_value`)
+#guard mmListF .min .inner Option.none .ij [.df fa, .df fb, .ts { idx := [1, 2, 4], vals := [some 10, some 20, some 30] }] [] ==
+  some (.ts { idx := [1, 2], vals := [Option.none, some 0] })
+#guard (aggCols .ij fa [fb]).length == 1 && (aggCols .oj fa [fb]).length == 3 && mmRaises .ij [.df fa, .df fx, .ts { idx := [], vals := [] }]
+#guard opList .add .outer Option.none [.ts { idx := [1, 2], vals := [some 1, some 2] }, .ts { idx := [2, 3], vals := [some 10, some 20] },
+    .ts { idx := [2, 4], vals := [some 100, some 200] }, .ts { idx := [2], vals := [some 1000] }] [] ==
+  some (.ts { idx := [1, 2, 3, 4], vals := [Option.none, some 1112, Option.none, Option.none] })
+
+/-- the hypotheses of `mmF_value` hold on a mix of frames, a Series and a scalar -/
+example : framesOfX [.df fa, .ts { idx := [1], vals := [some 1] }, .num (some 2), .df fb] = [fa, fb] ∧
+    (∀ g, FOperand.df g ∈ [FOperand.df fa, .ts { idx := [1], vals := [some 1] }, .num (some 2), .df fb] → g.cols.length > 1) := by
+  refine ⟨rfl, ?_⟩
+  intro g hg
+  simp only [List.mem_cons, FOperand.df.injEq, reduceCtorEq, false_or, List.not_mem_nil, or_false] at hg
+  rcases hg with rfl | rfl <;> decide
+
+/-- `XVal`: the unmasked division has infinities, the masked one has none -/
+example : (XVal.div (.fin 1) (.fin 0)).isInf = true ∧ (XVal.divMasked (.fin 1) (.fin 0)).isInf = false :=
+  ⟨by rw [div_unmasked_inf.1]; rfl, (div_never_inf (some 1) (some 0)).1⟩
 
 end Pyg.Props.C08
